@@ -28,6 +28,14 @@ OrderOK(e) ==
              /\ SubSeq(e.p2v, Len(e.base) + 1, e.n) = e.labels                  \* new variables go last
         ELSE TRUE)
 
+(* L2 (MODEL-DRIFT only): the heuristic orders are the very orders min_fill_order / force_order as transcribed in OrderAlgo compute *)
+(* (FORCE: on inputs where no exact tie meets an inexact f64 quotient - elsewhere the model abstains)                             *)
+OA == INSTANCE OrderAlgo
+OrderDrift(e) ==
+  CASE e.kind = "minfill" -> e.p2v # OA!MinFill(e.cnf, e.nv)
+    [] e.kind = "force" -> OA!Applicable(e.cnf) /\ ~OA!Fragile(e.cnf, e.nv) /\ e.p2v # OA!Force(e.cnf, e.nv)
+    [] OTHER -> FALSE
+
 (* --- dtrees --- *)
 IsLeafD(t) == t[1] = "l"
 RECURSIVE Leaves(_), DVars(_), DTreeOK(_, _)
@@ -101,6 +109,7 @@ Init == l = 2
 Step == /\ l <= Len(Rec) /\ l' = l + 1
         /\ "panic" \notin DOMAIN Rec[l] /\ "inexact" \notin DOMAIN Rec[l]
         /\ EventOK(Rec[l])
+        /\ (IF Rec[l].ev = "order" /\ OrderDrift(Rec[l]) THEN PrintT(<<"DRIFT", l>>) ELSE TRUE)
         /\ (IF Rec[l].ev = "dtree" /\ DtreeDrift(Rec[l]) THEN PrintT(<<"DRIFT", l>>) ELSE TRUE)
         /\ (IF Rec[l].ev = "vtree_dt" /\ VtreeDrift(Rec[l]) THEN PrintT(<<"DRIFT", l>>) ELSE TRUE)
 Spec == Init /\ [][Step]_l
